@@ -134,6 +134,10 @@ class Connector:
                                       description,
                                       self, noise,
                                       outbound_prologue, inbound_prologue)
+        # track every connection, inbound ones too, until it is selected or
+        # lost, so stop() and selection can shut them all down
+        self._pending_connections.add(p)
+        p.when_disconnected().addCallback(self._pending_connections.discard)
         return p
 
     @m.state(initial=True)
